@@ -13,7 +13,9 @@ import itertools
 import random
 
 from twisted.internet import task
-from twisted.internet.error import ConnectionLost, ConnectionRefusedError
+from twisted.internet.error import (ConnectingCancelledError, ConnectionLost, ConnectionRefusedError, DNSLookupError,
+                                    NoRouteError)
+from twisted.internet.error import TimeoutError as TxTimeoutError
 from twisted.internet.testing import MemoryReactorClock
 from twisted.python.failure import Failure
 
@@ -194,7 +196,19 @@ class Wire:
         return self.sent_to_client
 
 
-def connect_case(ctx, entries, mask, behaviour, cut, case):
+# the ways an address can be unreachable (not all of them derive from twisted's ConnectError)
+UNREACHABLE = [
+    lambda: ConnectionRefusedError('refused'),
+    lambda: TxTimeoutError('timed out'),
+    lambda: DNSLookupError('no such host'),
+    lambda: NoRouteError('no route'),
+    lambda: ConnectingCancelledError(None),
+    lambda: OSError(13, 'permission denied on the socket path'),
+    lambda: RuntimeError('endpoint failed in an unexpected way'),
+]
+
+
+def connect_case(ctx, entries, mask, behaviour, cut, case, fail_kind=0):
     """entries: indices into ENTRIES; mask[i] True = reachable.  Returns total stream length if cut is None."""
     reactor = LogReactor()
     addr = ';'.join(ENTRIES[i][0] for i in entries)
@@ -202,7 +216,7 @@ def connect_case(ctx, entries, mask, behaviour, cut, case):
     ctx.count('evaluations')
     d = C.connect(reactor, addr)
     d.addCallbacks(lambda c: results.append(('ok', c)), lambda f: results.append(('err', f)))
-    w = {'address': addr, 'mask': list(mask), 'behaviour': behaviour, 'cut': cut}
+    w = {'address': addr, 'mask': list(mask), 'behaviour': behaviour, 'cut': cut, 'unreachable_kind': fail_kind}
     total = None
     wire = None
     k = 0
@@ -216,7 +230,7 @@ def connect_case(ctx, entries, mask, behaviour, cut, case):
             wire = Wire(factory, kind == 'unix', behaviour)
             total = wire.run(cut)
             break
-        factory.clientConnectionFailed(connector, Failure(ConnectionRefusedError('unreachable')))
+        factory.clientConnectionFailed(connector, Failure(UNREACHABLE[(fail_kind + k) % len(UNREACHABLE)]()))
         k += 1
     # let every timer run
     reactor.advance(100000)
@@ -295,7 +309,7 @@ def part_a(ctx, si, sn, quick):
     lists = [list(p) for k in (1, 2, 3, 4) for p in itertools.permutations(range(len(ENTRIES)), k)]
     r = ctx.rng
     r.shuffle(lists)
-    for entries in lists[:(60 if quick else 600)]:
+    for entries in lists[:(300 if quick else 1300)]:
         for mask in itertools.product([False, True], repeat=len(entries)):
             n += 1
             if n % sn != si:
@@ -306,8 +320,11 @@ def part_a(ctx, si, sn, quick):
             if first is not None and r.random() < 0.5:
                 unix = ENTRIES[entries[first]][1][0] == 'unix'
                 cut = r.randint(0, FULL.get((b, unix), 60))
+            fk = r.randrange(len(UNREACHABLE))
             connect_case(ctx, entries, list(mask), b, cut,
-                         {'kind': 'connect', 'entries': entries, 'mask': list(mask), 'behaviour': b, 'cut': cut})
+                         {'kind': 'connect', 'entries': entries, 'mask': list(mask), 'behaviour': b, 'cut': cut,
+                          'fail_kind': fk}, fail_kind=fk)
+            ctx.distinct('unreachable_kinds', fk)
             ctx.count('mask_cases')
             ctx.distinct('nontrivial_cases', ('mask', tuple(entries), mask))
         if ctx.stop_early():
@@ -543,7 +560,7 @@ def classify_proxy_failure(f):
 
 
 def part_b(ctx, si, sn, quick):
-    nsc = (40 if quick else 400)
+    nsc = (200 if quick else 2000)
     for sc in range(nsc):
         if sc % sn != si:
             continue
@@ -587,7 +604,8 @@ def replay(ctx, rp):
         established_case(ctx, case['scenario'], case['lose_at'], case['partial'], case)
     elif case['kind'] == 'connect':
         part_a_full(ctx)
-        connect_case(ctx, case['entries'], case['mask'], case['behaviour'], case['cut'], case)
+        connect_case(ctx, case['entries'], case['mask'], case['behaviour'], case['cut'], case,
+                     fail_kind=case.get('fail_kind', 0))
     else:
         part_a_full(ctx)
 
